@@ -4,7 +4,7 @@
    (what compile_component_replica does to strings) is tied to it by C03_textual_refines. *)
 From Coq Require Import String Ascii List Bool NArith.
 Import ListNotations.
-Require Import V.Lib.PyStr V.Repl.Model V.Repl.Proofs V.Repl.Aggregate V.Repl.Dataflow V.Repl.Arguments.
+Require Import V.Lib.PyStr V.Repl.Model V.Repl.Proofs V.Repl.Aggregate V.Repl.Dataflow V.Repl.Arguments V.Repl.Platform.
 Open Scope list_scope.
 
 (* The replicated region: a component carries the count n exactly when it requests n replicas itself or
@@ -156,6 +156,69 @@ Proof.
 Qed.
 Print Assumptions C03_textual_arguments_replica.
 
+(* ---- the layer in front of the expansion (Platform.v): spelling of the attributes, platform, entry point ---- *)
+
+(* Spelling.  The workflow that is propagated and expanded for platform p (select w p) consists of the written
+   components, and a component is aggregating there exactly when its workflowAttributes.aggregate — taken from
+   override.p when given there, a boolean, a text, or the value of %(v)s found in the component's (overridden) / the
+   stage's / the global variables of p — reads true / y / yes in any letter case.  Nothing else of the component
+   enters: not its own replicate, not the platform the object was built for. *)
+Theorem C03_spelling_aggregate : forall w p t,
+  select w p = Some t ->
+  Forall2 (fun c tc => t_stage tc = r_stage c /\ t_name tc = r_name c /\ t_refs tc = r_refs c /\ t_args tc = r_args c /\
+                       (t_agg tc = true <-> exists s, spelled w p c = Some s /\ mem_str (lower s) true_words = true))
+          (rw_comps w) (w_comps t).
+Proof. exact select_components. Qed.
+Print Assumptions C03_spelling_aggregate.
+
+(* ... and such a component stays single in the expansion and consumes all copies in index order
+   (C03_structured_aggregator applies to it), also when it requests no replicas itself. *)
+Theorem C03_spelled_aggregator_single : forall w p t scs info c sc,
+  select w p = Some t -> parse_comps t (w_comps t) = Some scs -> NoDup (map sid scs) -> propagate scs = Some info ->
+  In (c, sc) (combine (rw_comps w) scs) ->
+  (exists s, spelled w p c = Some s /\ mem_str (lower s) true_words = true) ->
+  s_name sc = r_name c /\ s_stage sc = r_stage c /\
+  expand_one info sc = [agg_comp info sc] /\ so_name (agg_comp info sc) = s_name sc /\
+  so_refs (agg_comp info sc) = flat_map (agg_ref info) (s_refs sc).
+Proof.
+  intros w p t scs info c sc Hs Hp Hnd Hpr Hi Hsp.
+  destruct (spelled_aggregator w p t scs c sc Hs Hp Hi Hsp) as (Hin & Ha & Hn & Hst).
+  repeat split; auto. exact (aggregator_shape scs info Hnd Hpr sc Hin Ha).
+Qed.
+Print Assumptions C03_spelled_aggregator_single.
+
+(* Platform.  FlowIRConcrete(flowir, ctor).replicate(platform=p) expands the workflow for p, whatever platform the
+   object was built for; without a request it expands for the platform of the object (default when none was given). *)
+Theorem C03_platform_requested : forall w ctor ctor' p,
+  p <> ""%string -> replicate_concrete w ctor (Some p) = replicate_concrete w ctor' (Some p).
+Proof. exact replicate_concrete_requested. Qed.
+Print Assumptions C03_platform_requested.
+
+Theorem C03_platform_active : forall w ctor,
+  replicate_concrete w ctor None = replicate_concrete w None (Some (por ctor default_label)).
+Proof. exact replicate_concrete_active. Qed.
+Print Assumptions C03_platform_active.
+
+(* The dataflow theorem for the public entry point: what replicate(platform=req) of an object built for ctor returns
+   is the textual expansion of the workflow selected for (req or ctor or default), to which C03_textual_dataflow
+   (and through it the C03_structured_* theorems) applies. *)
+Theorem C03_platform_dataflow : forall w ctor req t scs info tout,
+  select w (por req (por ctor default_label)) = Some t ->
+  parse_comps t (w_comps t) = Some scs -> NoDup (map sid scs) -> propagate scs = Some info ->
+  replicate_concrete w ctor req = Some tout ->
+  canonical_refs (w_comps t) scs = true -> forallb (comp_guard info) scs = true ->
+  rt_ok (expand_with info scs) = true ->
+  tout = expand_all_t info (w_comps t) scs /\
+  Forall2 corr (expand_with info scs) tout /\
+  map (fun o => node_name (o_stage o) (o_name o)) tout =
+    map (fun o => node_name (so_stage o) (so_name o)) (expand_with info scs) /\
+  edges_of tout = sedges_of (expand_with info scs).
+Proof.
+  intros w ctor req t scs info tout Hs Hp Hnd Hpr Hr. rewrite (replicate_concrete_select w ctor req t Hs) in Hr.
+  exact (textual_dataflow t scs info tout Hp Hnd Hpr Hr).
+Qed.
+Print Assumptions C03_platform_dataflow.
+
 (* non-vacuity: A (2 replicas, count via a variable) -> C (also reads B) -> aggregator D -> E *)
 Definition ex_wf : twf := {| w_gvars := [("n", "2")]%string; w_svars := []; w_comps := [
   {| t_stage := 0; t_name := "A"; t_refs := []; t_args := "hi"; t_rep := RVar "n"; t_agg := false; t_vars := [] |};
@@ -201,6 +264,61 @@ Proof.
   split; [vm_compute; reflexivity|].
   split; [vm_compute; reflexivity|].
   split; [vm_compute; reflexivity|].
+  split; [vm_compute; reflexivity|].
+  split; [vm_compute; reflexivity|].
+  split; [vm_compute; reflexivity|].
+  split; [vm_compute; reflexivity|].
+  split; [vm_compute; reflexivity|].
+  split; vm_compute; reflexivity.
+Qed.
+
+(* non-vacuity of the platform layer: A asks for %(n)s replicas (n = 2 on default, 4 on hpc; the stage-0 variable
+   n = 9 of the default platform is hidden on hpc by hpc's global n), X asks for 1 replica but 3 on hpc through its
+   override, G aggregates with the flag spelled through a variable, H with the flag spelled "Yes" on hpc only *)
+Definition ex_rwf : rwf := {|
+  rw_platforms := ["default"; "hpc"]%string;
+  rw_vars := [("default", {| p_global := [("n", "2"); ("doAggregate", "y")]; p_stages := [(1%N, [("k", "1")])] |});
+              ("hpc", {| p_global := [("n", "4")]; p_stages := [] |})]%string;
+  rw_comps := [
+    {| r_stage := 0; r_name := "A"; r_refs := []; r_args := "hi"; r_rep := CVar "n"; r_agg := ANone; r_vars := [];
+       r_over := [] |};
+    {| r_stage := 0; r_name := "B"; r_refs := ["A:ref"]; r_args := "A:ref/out.txt"; r_rep := CNone; r_agg := AText "no";
+       r_vars := []; r_over := [] |};
+    {| r_stage := 0; r_name := "X"; r_refs := []; r_args := "hi"; r_rep := CLit 1; r_agg := ANone; r_vars := [];
+       r_over := [("hpc", {| ov_rep := CText "3"; ov_agg := ANone; ov_vars := [] |})] |};
+    {| r_stage := 1; r_name := "G"; r_refs := ["stage0.B:ref"]; r_args := "stage0.B:ref"; r_rep := CNone;
+       r_agg := AVar "doAggregate"; r_vars := []; r_over := [] |};
+    {| r_stage := 1; r_name := "H"; r_refs := ["stage0.X:ref"]; r_args := "stage0.X:ref"; r_rep := CNone;
+       r_agg := ABool false; r_vars := [];
+       r_over := [("hpc", {| ov_rep := CNone; ov_agg := AText "Yes"; ov_vars := [] |})] |}
+  ]%string |}.
+
+Definition names_refs (o : option (list ocomp)) := option_map (map (fun o => (o_name o, o_refs o))) o.
+
+Example C03_platform_nonvacuous :
+  names_refs (replicate_concrete ex_rwf None None) =
+    Some [("A0", []); ("A1", []); ("B0", ["stage0.A0:ref"]); ("B1", ["stage0.A1:ref"]); ("X0", []);
+          ("G", ["stage0.B0:ref"; "stage0.B1:ref"]); ("H0", ["stage0.X0:ref"])]%string /\
+  names_refs (replicate_concrete ex_rwf (Some "default") (Some "hpc"))%string =
+    Some [("A0", []); ("A1", []); ("A2", []); ("A3", []);
+          ("B0", ["stage0.A0:ref"]); ("B1", ["stage0.A1:ref"]); ("B2", ["stage0.A2:ref"]); ("B3", ["stage0.A3:ref"]);
+          ("X0", []); ("X1", []); ("X2", []);
+          ("G", ["stage0.B0:ref"; "stage0.B1:ref"; "stage0.B2:ref"; "stage0.B3:ref"]);
+          ("H", ["stage0.X0:ref"; "stage0.X1:ref"; "stage0.X2:ref"])]%string /\
+  replicate_concrete ex_rwf (Some "hpc") (Some "default")%string = replicate_concrete ex_rwf None None /\
+  replicate_concrete ex_rwf (Some "hpc") None%string = replicate_concrete ex_rwf None (Some "hpc")%string /\
+  replicate_concrete ex_rwf None (Some "nope")%string = None /\
+  (exists t scs info, select ex_rwf "hpc" = Some t /\ parse_comps t (w_comps t) = Some scs /\
+                      propagate scs = Some info /\ canonical_refs (w_comps t) scs = true /\
+                      forallb (comp_guard info) scs = true /\ rt_ok (expand_with info scs) = true /\
+                      map t_agg (w_comps t) = [false; false; false; true; true]).
+Proof.
+  split; [vm_compute; reflexivity|].
+  split; [vm_compute; reflexivity|].
+  split; [vm_compute; reflexivity|].
+  split; [vm_compute; reflexivity|].
+  split; [vm_compute; reflexivity|].
+  eexists. eexists. eexists.
   split; [vm_compute; reflexivity|].
   split; [vm_compute; reflexivity|].
   split; [vm_compute; reflexivity|].
